@@ -160,6 +160,7 @@ class C05(TreeSpec):
 @register
 class C10(TreeSpec):
     id = "C10"
+    level = "fault_enumeration"
     judged = ("C10", "C05")
     own_checks = ("C10.unexpected_exception", "C10.sizing_exception", "C10.zero_base_missed", "C10.open_nan_missed", "C10.nonfinite", "C10.report_raises", "C10.ill_not_raised", "C10.ill_state_changed", "c05_refuse", "c05_refuse_state")
     tiers = {"quick": dict(runs=3600, builds=("py", "cy"), wall=75), "thorough": dict(runs=120000, builds=("py", "cy"), wall=1500)}
